@@ -235,6 +235,67 @@ pub mod train {
         Ok(rw.rewrite(features))
     }
 
+    use std::num::NonZeroU32;
+
+    use bincode::{Decode, Encode};
+
+    use crate::common;
+    use crate::trainer::Model;
+
+    /// Mirror of `rucrf::FeatureSet` (same bincode layout).
+    #[derive(Decode, Encode, Clone, Debug)]
+    pub struct VerifFeatureSet {
+        pub unigram: Vec<NonZeroU32>,
+        pub bigram_right: Vec<Option<NonZeroU32>>,
+        pub bigram_left: Vec<Option<NonZeroU32>>,
+    }
+
+    /// Mirror of `rucrf::RawModel` (same bincode layout; its fields are private to rucrf).
+    #[derive(Decode, Encode, Clone, Debug)]
+    pub struct VerifRawModel {
+        pub weights: Vec<f64>,
+        pub unigram_weight_indices: Vec<Option<NonZeroU32>>,
+        pub bigram_weight_indices: Vec<Vec<(u32, u32)>>,
+        pub feature_sets: Vec<VerifFeatureSet>,
+    }
+
+    impl Model {
+        /// The raw CRF model, decoded into a mirror type.
+        pub fn verif_raw(&self) -> VerifRawModel {
+            let bytes = bincode::encode_to_vec(&self.data.raw_model, common::bincode_config()).unwrap();
+            bincode::decode_from_slice(&bytes, common::bincode_config()).unwrap().0
+        }
+
+        /// Replaces the raw CRF model (used to quantise the weights to integers).
+        pub fn verif_set_raw(&mut self, m: &VerifRawModel) {
+            let bytes = bincode::encode_to_vec(m, common::bincode_config()).unwrap();
+            self.data.raw_model = bincode::decode_from_slice(&bytes, common::bincode_config()).unwrap().0;
+            self.merged_model = None;
+        }
+
+        /// The feature string -> id maps (unigram, left, right) as they are now.
+        #[allow(clippy::type_complexity)]
+        pub fn verif_feature_maps(&self) -> (Vec<(String, u32)>, Vec<(String, u32)>, Vec<(String, u32)>) {
+            let dump = |m: &hashbrown::HashMap<String, NonZeroU32>| -> Vec<(String, u32)> {
+                let mut v: Vec<(String, u32)> = m.iter().map(|(k, v)| (k.clone(), v.get())).collect();
+                v.sort_by_key(|x| x.1);
+                v
+            };
+            let fe = &self.data.config.feature_extractor;
+            (dump(&fe.unigram_feature_ids), dump(&fe.left_feature_ids), dump(&fe.right_feature_ids))
+        }
+
+        /// Numbers of seed lexicon rows, seed unknown entries and user entries.
+        pub fn verif_counts(&self) -> (usize, usize, usize) {
+            (self.data.config.surfaces.len(), self.data.config.dict.unk_handler().verif_entries().len(), self.user_entries.len())
+        }
+
+        /// Label ids (1-based) of the user entries, in order.
+        pub fn verif_user_labels(&self) -> Vec<u32> {
+            self.user_entries.iter().map(|e| e.2.get()).collect()
+        }
+    }
+
     /// Result of `expand`: per row the feature ids per template (`None` = no feature), and the
     /// three final string -> id maps (unigram, left, right).
     pub struct Expanded {
